@@ -1,4 +1,136 @@
 package main
 
-// runSensitivity is the thorough-tier sensitivity suite; filled in later.
-func runSensitivity(r *Report) {}
+// Thorough tier: the same rules under GOARCH=386 and the sensitivity suite
+// (seeded mutants applied to a scratch copy of the current tree, each checked
+// in a separate process).
+
+import (
+	"encoding/json"
+	"fmt"
+	"os"
+	"os/exec"
+	"path/filepath"
+	"sort"
+	"strings"
+)
+
+type mutant struct {
+	Name   string `json:"name"`
+	File   string `json:"file"`
+	Old    string `json:"old"`
+	New    string `json:"new"`
+	More   []struct {
+		Old string `json:"old"`
+		New string `json:"new"`
+	} `json:"more"` // further replacements in the same file (e.g. an import that becomes unused)
+	Expect string `json:"expect_rule"` // substring of the rule id expected in the report
+	Note   string `json:"note"`
+}
+
+type mutantResult struct {
+	Name     string `json:"name"`
+	Status   string `json:"status"` // detected | MISSED | not-applicable | does-not-build
+	Reported string `json:"reported,omitempty"`
+}
+
+// archOverride makes loadResolve use a different GOARCH (thorough tier).
+var archOverride string
+
+func runSensitivity(r *Report) {
+	// (a) GOARCH=386 pass of the same rules
+	if r.Property != "C17" {
+		archOverride = "386"
+		progCache = map[string]*Prog{}
+		r386 := newReport(r.Property, r.Tier)
+		checkers[r.Property](r386)
+		archOverride = ""
+		progCache = map[string]*Prog{}
+		n := 0
+		for _, o := range r386.Obls {
+			o.Key = "[GOARCH=386] " + o.Key
+			r.Obls = append(r.Obls, o)
+			n++
+		}
+		for _, f := range r386.Floors {
+			f.What = "[GOARCH=386] " + f.What
+			r.Floors = append(r.Floors, f)
+		}
+		r.Stats["goarch_386_obligations"] = n
+	}
+	// (b) sensitivity suite
+	dir := filepath.Join(verifDir(), "mutants", r.Property)
+	files, _ := filepath.Glob(filepath.Join(dir, "*.json"))
+	sort.Strings(files)
+	if len(files) == 0 {
+		return
+	}
+	tmp, err := os.MkdirTemp("", "depscheck-mut-")
+	if err != nil {
+		r.note("sensitivity suite skipped: %v", err)
+		return
+	}
+	defer os.RemoveAll(tmp)
+	scratch := filepath.Join(tmp, "repo")
+	if out, err := exec.Command("cp", "-r", repoRoot, scratch).CombinedOutput(); err != nil {
+		r.note("sensitivity suite skipped: cannot copy the tree: %v %s", err, out)
+		return
+	}
+	os.RemoveAll(filepath.Join(scratch, ".git"))
+	exe, _ := os.Executable()
+	var results []mutantResult
+	applied, detected, na := 0, 0, 0
+	for _, mf := range files {
+		var m mutant
+		b, err := os.ReadFile(mf)
+		if err != nil || json.Unmarshal(b, &m) != nil {
+			r.note("unreadable mutant %s", mf)
+			continue
+		}
+		if m.Name == "" {
+			m.Name = strings.TrimSuffix(filepath.Base(mf), ".json")
+		}
+		target := filepath.Join(scratch, m.File)
+		orig, err := os.ReadFile(filepath.Join(repoRoot, m.File))
+		if err != nil || strings.Count(string(orig), m.Old) != 1 {
+			na++
+			results = append(results, mutantResult{m.Name, "not-applicable", "the text to replace does not occur exactly once on this tree"})
+			continue
+		}
+		mutated := strings.Replace(string(orig), m.Old, m.New, 1)
+		for _, e := range m.More {
+			mutated = strings.Replace(mutated, e.Old, e.New, 1)
+		}
+		os.WriteFile(target, []byte(mutated), 0o644)
+		cmd := exec.Command(exe, "check", "-property", r.Property, "-tier", "quick", "-repo", scratch, "-no-evidence")
+		cmd.Env = append(os.Environ(), "VERIF_DIR="+verifDir())
+		out, _ := cmd.CombinedOutput()
+		os.WriteFile(target, orig, 0o644)
+		text := string(out)
+		switch {
+		case strings.Contains(text, "does not load/type-check"):
+			results = append(results, mutantResult{m.Name, "does-not-build", ""})
+		case strings.Contains(text, "VIOLATION property="+r.Property) && (m.Expect == "" || strings.Contains(text, "["+m.Expect) || strings.Contains(text, m.Expect)):
+			applied++
+			detected++
+			first := ""
+			for _, ln := range strings.Split(text, "\n") {
+				if strings.Contains(ln, "[C") && strings.Contains(ln, "]") {
+					first = ln
+					break
+				}
+			}
+			if len(first) > 300 {
+				first = first[:300]
+			}
+			results = append(results, mutantResult{m.Name, "detected", first})
+		default:
+			applied++
+			results = append(results, mutantResult{m.Name, "MISSED", ""})
+			fmt.Printf("SENSITIVITY: the checker for %s no longer detects seeded mutant %s (%s)\n", r.Property, m.Name, m.Note)
+		}
+	}
+	r.Stats["mutants_applied"] = applied
+	r.Stats["mutants_detected"] = detected
+	r.Stats["mutants_not_applicable"] = na
+	r.Stats["mutant_results"] = results
+}
